@@ -7,7 +7,9 @@
 // Used by props/c08.py and props/c15.py.  Input: a script file (see parse below).
 #![allow(clippy::all)]
 use fuse_backend_rs::abi::fuse_abi::CreateIn;
-use fuse_backend_rs::api::filesystem::{Context, Entry, FileSystem, FsOptions};
+use fuse_backend_rs::api::filesystem::{Context, Entry, FileSystem, FsOptions, SetattrValid, ZeroCopyReader, ZeroCopyWriter};
+use fuse_backend_rs::file_buf::FileVolatileSlice;
+use fuse_backend_rs::file_traits::FileReadWriteVolatile;
 use fuse_backend_rs::passthrough::{CachePolicy, Config, PassthroughFs};
 use std::collections::HashSet;
 use std::ffi::{CStr, CString};
@@ -15,6 +17,46 @@ use std::io::{BufRead, Write};
 use std::os::unix::io::RawFd;
 
 type Fs = PassthroughFs<()>;
+
+/// the reply buffer of a READ / the payload of a WRITE, as the transport would present them
+struct Buf(Vec<u8>);
+impl std::io::Write for Buf {
+    fn write(&mut self, b: &[u8]) -> std::io::Result<usize> {
+        self.0.extend_from_slice(b);
+        Ok(b.len())
+    }
+    fn flush(&mut self) -> std::io::Result<()> {
+        Ok(())
+    }
+}
+impl ZeroCopyWriter for Buf {
+    fn write_from(&mut self, f: &mut dyn FileReadWriteVolatile, count: usize, off: u64) -> std::io::Result<usize> {
+        let mut tmp = vec![0u8; count];
+        let n = f.read_at_volatile(unsafe { FileVolatileSlice::from_mut_slice(&mut tmp) }, off)?;
+        self.0.extend_from_slice(&tmp[..n]);
+        Ok(n)
+    }
+    fn available_bytes(&self) -> usize {
+        1 << 20
+    }
+}
+impl std::io::Read for Buf {
+    fn read(&mut self, b: &mut [u8]) -> std::io::Result<usize> {
+        let n = b.len().min(self.0.len());
+        b[..n].copy_from_slice(&self.0[..n]);
+        self.0.drain(..n);
+        Ok(n)
+    }
+}
+impl ZeroCopyReader for Buf {
+    fn read_to(&mut self, f: &mut dyn FileReadWriteVolatile, count: usize, off: u64) -> std::io::Result<usize> {
+        let n = count.min(self.0.len());
+        let mut tmp: Vec<u8> = self.0[..n].to_vec();
+        let w = f.write_at_volatile(unsafe { FileVolatileSlice::from_mut_slice(&mut tmp) }, off)?;
+        self.0.drain(..w);
+        Ok(w)
+    }
+}
 
 fn errno_of(e: &std::io::Error) -> i32 {
     e.raw_os_error().unwrap_or(-1)
@@ -422,6 +464,10 @@ fn main() {
                     "fsyncdir" => h.fs.fsyncdir(&c, ino, false, hh),
                     "flush" => h.fs.flush(&c, ino, hh, 0),
                     "lseek" => h.fs.lseek(&c, ino, hh, 0, libc::SEEK_CUR as u32).map(|_| ()),
+                    "read" => h.fs.read(&c, ino, hh, &mut Buf(vec![]), 4, 0, None, libc::O_RDONLY as u32).map(|_| ()),
+                    "write" => h.fs.write(&c, ino, hh, &mut Buf(b"ab".to_vec()), 2, 0, None, false, libc::O_WRONLY as u32, 0).map(|_| ()),
+                    "fallocate" => h.fs.fallocate(&c, ino, hh, 0, 0, 4),
+                    "setattr" => h.fs.setattr(&c, ino, unsafe { std::mem::zeroed() }, Some(hh), SetattrValid::empty()).map(|_| ()),
                     x => panic!("use {}", x),
                 };
                 body = format!("\"res\":{},\"ino\":{},\"h\":{},\"kind\":\"{}\"", res.err().map(|e| errno_of(&e)).unwrap_or(0), ino, hh, w[3]);
